@@ -167,7 +167,11 @@ func (ex *Exec) bytesCopyIn(b *BytesNode, dlo, n *Term, src *layer, slo *Term) {
 		return
 	}
 	// small concrete copies become per-byte stores (keeps concrete buffers concrete)
-	if n.IsConst() && dlo.IsConst() && slo.IsConst() && n.val <= 4096 {
+	limit := uint64(64)
+	if ex.eng.concreteCopies {
+		limit = 4096
+	}
+	if n.IsConst() && dlo.IsConst() && slo.IsConst() && n.val <= limit {
 		allConc := true
 		vals := make([]*Term, n.val)
 		for k := uint64(0); k < n.val; k++ {
@@ -191,7 +195,11 @@ func (ex *Exec) bytesFill(b *BytesNode, guard, lo, hi, v *Term) {
 	if guard.IsFalse() {
 		return
 	}
-	if guard.IsTrue() && lo.IsConst() && hi.IsConst() && hi.val-lo.val <= 8192 {
+	flimit := uint64(64)
+	if ex.eng.concreteCopies {
+		flimit = 8192
+	}
+	if guard.IsTrue() && lo.IsConst() && hi.IsConst() && hi.val-lo.val <= flimit {
 		for k := lo.val; k < hi.val; k++ {
 			ex.bytesWrite(b, ex.tf.Const(64, k), v)
 		}
